@@ -78,6 +78,7 @@ func ptrBoundary(size uint32, need uint64) []uint64 {
 		n = 0xffffffff
 	}
 	v := []uint32{0, 1, size - n, size - n - 1, size - n + 1, size - 1, size, size + 1, size - 4, size - 8, size + 0x10000,
+		size - 5, size - 6, size - 7, size - 16, size + 8, size + 24, size + 60, size, size - n + 4,
 		0x7fffffff, 0x80000000, 0xffffffff, 0xfffffffc, 0xfffffff8, -n, -n - 1, -n + 1}
 	r := make([]uint64, len(v))
 	for i, x := range v {
@@ -695,6 +696,7 @@ func runOne(rt *rapid.T, fn *wasiabi.Func) {
 	c := &Case{Fn: fn.Name}
 	c.Engine = pick(t, "engine", wz.Engines)
 	c.Pages = pick(t, "pages", []uint32{1, 1, 1, 1, 1, 1, 1, 2, 2, 0})
+	c.CapMax = chance(t, "capmax", 30)
 	wantSock := fn.Want == wasiabi.WantConn || fn.Want == wasiabi.WantListener
 	c.Sock = chance(t, "sock", map[bool]int{true: 92, false: 12}[wantSock])
 	c.State = genState(t, fn, c)
@@ -722,6 +724,9 @@ func runOne(rt *rapid.T, fn *wasiabi.Func) {
 	}
 	past := !hasFd || r.Errno != wasiproxy.EBADF || r.Out.Kind != wz.KOK
 	nontrivial := (nb > 0 || len(fn.Params) == 0) && (past || r.MemChanged)
+	if c.CapMax {
+		evid.Label("capacity-from-max", 1)
+	}
 	labels := []string{"engine:" + c.Engine, fmt.Sprintf("pages:%d", c.Pages), errnoClass(r.Errno)}
 	if nontrivial {
 		labels = append(labels, "fn:"+fn.Name)
